@@ -111,6 +111,8 @@ func genC04(r *Rng) *Scenario {
 		h := 1
 		if r.chance(0.25) {
 			h = 3 // a handler that publishes through the client it was called by
+		} else if r.chance(0.25) {
+			h = 4 // a handler that rewrites the message it was given (it owns it)
 		}
 		sc.Ops = append(sc.Ops, Op{AtUs: 0, Actor: 1, Kind: "handle", Handler: h})
 	}
@@ -143,6 +145,10 @@ func genC04(r *Rng) *Scenario {
 		id := uint16(r.between(1, 3))
 		o := Out{Conn: 1, AtUs: t, Kind: "pkt"}
 		tok := fmt.Sprintf("in%d", i)
+		topics := topics
+		if r.chance(0.2) {
+			topics = []string{"caf\u00e9/x", "\u65e5\u672c/\u8a9e", "\U0001F600", "a/\u00e9"} // multi-byte UTF-8
+		}
 		switch r.weighted(3, 3, 4, 4) {
 		case 0:
 			o.Pkt = &Pkt{Type: TPublish, QoS: 0, Topic: topics[r.IntN(len(topics))], Pay: tok, Retain: r.chance(0.2)}
